@@ -24,6 +24,7 @@ type C01Case struct {
 func genC01(t *rapid.T) C01Case {
 	cfg := kit.DefaultTreeGen()
 	cfg.CorruptPct = 7
+	cfg.MalleatePct = 10
 	tc := kit.GenTree(t, cfg)
 	return C01Case{Tree: tc, Steps: kit.GenSchedule(t, len(tc.Blocks), 30), Backend: rapid.IntRange(0, 2).Draw(t, "backend")}
 }
@@ -111,6 +112,27 @@ func runC01(c C01Case, cs *kit.CaseStats) error {
 				allKnownBefore = false
 			}
 		}
+		// a submission made only of valid blocks whose parents are at hand, on
+		// top of ancestors whose genuine bodies the node holds, must not fail
+		mustSucceed := !tr.HasMalleated(st)
+		inBatch := map[types.BlockID]bool{}
+		for _, n := range nodes {
+			if n.Ledger == nil || n.Parent == nil || !(inBatch[n.Parent.ID] || known(n.Parent.ID)) {
+				mustSucceed = false
+			}
+			inBatch[n.ID] = true
+		}
+		if mustSucceed {
+			for a := nodes[len(nodes)-1]; a != nil && a.Idx >= 0 && mustSucceed; a = a.Parent {
+				if inBatch[a.ID] {
+					continue
+				}
+				held, ok := node.CM.Block(a.ID)
+				if !ok || !bytes.Equal(refl.Enc(types.V2Block(held)), refl.Enc(types.V2Block(a.Block))) {
+					mustSucceed = false // the node holds another body under this id (or none)
+				}
+			}
+		}
 		var err error
 		if validated {
 			cs.Class("call=AddValidatedV2Blocks")
@@ -141,7 +163,19 @@ func runC01(c C01Case, cs *kit.CaseStats) error {
 		if newState.TotalWork.Cmp(oldState.TotalWork) < 0 {
 			return fmt.Errorf("%s: tip total work decreased (%v -> %v)", where, oldState.TotalWork, newState.TotalWork)
 		}
+		if err != nil && mustSucceed {
+			return fmt.Errorf("%s: a submission consisting only of valid blocks, with all parents and genuine ancestor bodies at hand, failed", where)
+		}
 		last := nodes[len(nodes)-1]
+		malleated := tr.HasMalleated(st)
+		if malleated {
+			cs.Class("same-id-altered-body-submitted")
+			for _, n := range nodes {
+				if n.Malleated != nil && !allKnownBefore {
+					cs.Class("altered-body-before-genuine")
+				}
+			}
+		}
 		if err != nil {
 			cs.Class("submission-error")
 			// (6) a failed submission leaves everything as before
@@ -195,8 +229,11 @@ func runC01(c C01Case, cs *kit.CaseStats) error {
 			}
 		}
 		// (4) completeness / (5) invalid chains must be refused with an error
+		// (not judged for calls that handed over an altered body under a valid
+		// block's id: whether such a call errs depends on which body the node
+		// already holds; the audit and later genuine submissions decide)
 		lastKnown := known(last.ID)
-		if lastKnown {
+		if lastKnown && !malleated {
 			cand := last.Hdr
 			if heavier := cand.SufficientlyHeavierThan(oldState); heavier && cand.Index.Height <= oldState.Index.Height {
 				cs.Class("candidate-heavier-but-not-longer")
